@@ -256,7 +256,8 @@ def fragment_inputs(ctx: fw.Ctx):
 
 def fragment_correspondence(ctx: fw.Ctx):
     """Model/Cst.lean + FromCst.lean + Rebuild.lean vs source_code.py / set.py / binding.py / list.py /
-    primitive.py / parenthesis.py / function/call.py / trivia.py, whole round trip: the REAL tree-sitter tree of every input that lies in
+    primitive.py / parenthesis.py / function/call.py / with_statement.py / assertion.py / select.py / unary.py / binary.py /
+    function/definition.py / if_expression.py / has_attr.py / trivia.py, whole round trip: the REAL tree-sitter tree of every input that lies in
     the container fragment is converted to the model's `Cst` (harness/cstdump.py; the parser contract
     `flatten(cst) == text` is checked on the way), the Lean driver parses and rebuilds it with the
     model, and the text must equal `parse(text).rebuild()` of the implementation. On the same inputs
